@@ -2082,6 +2082,9 @@ impl ContinuityStore {
             {
                 Ok(Some(tail)) => {
                     scanned_sidecar = true;
+                    // Each wider window is scanned from the newest frame again: start over, or the
+                    // decisions already found in the narrower window are listed twice.
+                    decisions.clear();
                     for event in tail.events.iter().rev() {
                         let EventKind::ContinuityContextSelectionDecided {
                             run_session_id,
